@@ -111,6 +111,19 @@ func flagSources(v ssa.Value, seen map[ssa.Value]bool) []ssa.Value {
 	seen[v] = true
 	phi, ok := v.(*ssa.Phi)
 	if !ok {
+		// a flag returned by a repository helper: the conditions under which it returns the constant true
+		if call, idx, errForm, isSummary := calleeOfCondition(cond{V: v, Pos: true}); isSummary && !errForm {
+			var out []ssa.Value
+			callee := call.Call.StaticCallee()
+			for _, rb := range summaryReturns(callee, idx, false) {
+				for _, cd := range factsOf(callee).baseDominatingConds(rb) {
+					out = append(out, cd.V)
+				}
+			}
+			if len(out) > 0 {
+				return out
+			}
+		}
 		return []ssa.Value{v}
 	}
 	var out []ssa.Value
@@ -256,7 +269,7 @@ func checkC05(p *Program, r *Reporter) {
 			if valueDependsOnField(p, s, "app.ResponseConfig.StopTimeS") {
 				depStop = true
 			}
-			if localDependsOnParam(p, s, nowPrm) {
+			if localDependsOnParam(p, s, nowPrm) || valueDependsOnParam(p, s, nowPrm) {
 				depNow = true
 			}
 			coarse, _, _ := coarseRoundings(p, s)
